@@ -62,14 +62,16 @@ def render(template):
                     _, J = ln
                     out.append(f"        if ({var} >= 0) {{ for (int q=0; q<1; q++) {{ y[{var}*{NM} + {J}] += 1; }} }}")
             out.append("    }//end_vectorize")
-        elif it[0] == "include":
+        elif it[0] in ("include", "includeblock"):
             _, fname, ctxs = it
             out.append(f"    //include_file {fname} for_context {' '.join(ctxs)}")
     out.append("}")
     return "\n".join(out) + "\n"
 
 
-INC_TEXT = "    z[7] += 1;\n"
+# the included file carries annotations of its own: a context-restricted line and a whole vectorised block
+INC_TEXT = "    z[7] += 1;\n    z[6] += 1; //only_for_context cuda opencl\n"
+INC_BLOCK = "    for (int qq=0; qq<n; qq++){ //vectorize_over qq n\n        y[qq*8 + 5] += 1;\n        y[qq*8 + 6] += 1; //only_for_context cpu_serial opencl\n    }//end_vectorize\n"
 
 
 def templates():
@@ -83,6 +85,7 @@ def templates():
         ("t_ctx_outside", [("line", 0, G), ("line", 1, ("cpu_serial",)), ("block", "tid", "n", [("line", 0, None)]), ("line", 2, ("opencl",))]),
         ("t_nested", [("block", "tid", "n", [("nested", 0), ("line", 1, None)])]),
         ("t_include", [("include", "inc_c16.h", ("cuda", "cpu_serial")), ("block", "tid", "n", [("line", 0, None)])]),
+        ("t_include_block", [("block", "tid", "n", [("line", 0, None)]), ("includeblock", "incb_c16.h", ("cuda", "cpu_openmp", "opencl"))]),
         ("t_three", [("block", "a", "n", [("line", 0, ("cuda",))]), ("block", "b", "n", [("line", 1, None)]), ("block", "c", "n", [("line", 2, ("opencl", "cpu_openmp"))])]),
     ]
 
@@ -239,6 +242,14 @@ def expected(template, tgt):
         elif it[0] == "include":
             if tgt in it[2]:
                 outside.append(7)
+                if tgt in ("cuda", "opencl"):
+                    outside.append(6)
+        elif it[0] == "includeblock":
+            if tgt in it[2]:
+                ys = [("qq", 5)]
+                if tgt in ("cpu_serial", "opencl"):
+                    ys.append(("qq", 6))
+                blocks.append(ys)
     return blocks, outside
 
 
@@ -323,6 +334,8 @@ def harness(job):
     tmp = tempfile.mkdtemp(prefix="vx_c16_")
     with open(os.path.join(tmp, "inc_c16.h"), "w") as f:
         f.write(INC_TEXT)
+    with open(os.path.join(tmp, "incb_c16.h"), "w") as f:
+        f.write(INC_BLOCK)
     per = {}
     try:
         for tgt in TARGETS:
@@ -448,6 +461,8 @@ def replay(ti, n, bs):
     tmp = tempfile.mkdtemp(prefix="vx_c16r_")
     with open(os.path.join(tmp, "inc_c16.h"), "w") as f:
         f.write(INC_TEXT)
+    with open(os.path.join(tmp, "incb_c16.h"), "w") as f:
+        f.write(INC_BLOCK)
     rec = {}
 
     def fcu(grid, block, args, shared_mem=0):
@@ -466,7 +481,12 @@ def replay(ti, n, bs):
     xocl.KernelPyopencl(function=fcl, description=xo.Kernel(args=[], n_threads=n), context=types.SimpleNamespace(queue=None), wait_on_call=True)()
     bad = 0
     for tgt in TARGETS:
-        spec = specialize_source(src, tgt, search_in_folders=[tmp])
+        try:
+            spec = specialize_source(src, tgt, search_in_folders=[tmp])
+        except Exception as ex:
+            print(f"VIOLATED [{tgt}]: specialize_source raised {type(ex).__name__}: {str(ex)[:120]} on a template built from the documented annotations")
+            bad = 1
+            continue
         pre = "typedef struct {int x;} dim3_; static dim3_ blockDim, blockIdx, threadIdx; static int gid_; static int get_global_id(int d){return gid_;}\\n"
         if tgt == "cuda":
             drv = f"void drive(int n, double* y, double* z, int grid, int block, int G){{ blockDim.x = block; for (int b=0;b<grid;b++) for (int t=0;t<block;t++){{ blockIdx.x=b; threadIdx.x=t; {name}(n,y,z); }} }}"
